@@ -23,7 +23,10 @@ def regen(ctx):
     dst = ctx.get('COQ', '/verif/coq') + '/Gen/GenField.v'
     notes = ctx.setdefault('notes', [])
     try:
-        text = xlate_field.translate(repo)
+        prev = open(dst).read() if os.path.exists(dst) else None
+        # per-target best effort: a function outside the Rust subset keeps its previous generated
+        # definition (listed in a note), all the others are still regenerated
+        text, failures = xlate_field.translate_all(repo, prev)
     except xlate_field.TranslateError as e:
         notes.append('T-field translator could not translate the current source: %s '
                      '(kept previous Gen/GenField.v; correspondence only for the affected functions)' % e)
@@ -31,6 +34,9 @@ def regen(ctx):
     except Exception as e:                      # a bug in the translator must not stop the check
         notes.append('T-field translator internal error: %r (kept previous Gen/GenField.v)' % (e,))
         return False
+    for name, msg in failures:
+        notes.append('T-field translator: %s not translatable now (%s); its previous generated definition is kept, '
+                     'correspondence only for that function' % (name, msg))
     if xlate_field.write_if_changed(dst, text):
         notes.append('Gen/GenField.v regenerated: field-level source (group law / extension towers) changed')
         return True
